@@ -347,7 +347,7 @@ def c02(tier):
 NAMESETS = {"A": ["9.conf", "x.con", "10.conf"], "B": ["a.conf", ".conf", "B.conf"], "C": ["9.conf", "a.conf", ".h.conf"]}
 ENTRYNAMES = ["readDirsHistory", "readDirsHistoryWithCallback", "readDirs", "readDirsWithCallback", "readConfig", "readConfigWithCallback"]
 
-def d_inst(entry, layers, nameset, fullpat, suffix="conf", faults=0, timeout=150, keysel=None, failfile=-1, failkind=1, rootmode=False, confopt=False, setconf=None):
+def d_inst(entry, layers, nameset, fullpat, suffix="conf", faults=0, timeout=150, keysel=None, failfile=-1, failkind=1, rootmode=False, confopt=False, setconf=None, nameless=False):
     """fullpat: list per layer of [main present, dropin dir present, presence per candidate...]"""
     pattern = [row[2:] for row in fullpat]
     mainp = [row[0] for row in fullpat]; dirp = [row[1] for row in fullpat]
@@ -378,7 +378,8 @@ def d_inst(entry, layers, nameset, fullpat, suffix="conf", faults=0, timeout=150
     if confopt: hdr += "#define CONFOPT 1\n"
     mains = [d + "/c" + sufdot for d in ldirs]
     bases = [d + "/c" for d in ldirs]
-    ddp = [(b + setconf) if setconf else (m + ".d") for b, m in zip(bases, mains)]
+    ddp = [(b + setconf) if setconf else (b + ".d") if nameless else (m + ".d") for b, m in zip(bases, mains)]
+    if nameless: hdr += "#define NAMELESS 1\n"
     if setconf: hdr += '#define SETCONF "%s"\n' % setconf
     hdr += "static const char *MAINPATH[LAYERS] = {%s};\nstatic const char *DDPATH[LAYERS] = {%s};\nstatic const char *FPATH[LAYERS][NF] = {%s};\n" % (
         ",".join('"%s"' % m for m in mains), ",".join('"%s"' % x for x in ddp),
@@ -386,7 +387,7 @@ def d_inst(entry, layers, nameset, fullpat, suffix="conf", faults=0, timeout=150
     pat = "_".join("".join(str(b) for b in row) for row in fullpat)
     nfiles = layers * (nf + 1)
     d = {"STRCAP": 56 if confopt else 40, "VCAP": max(nfiles + 2, 6), "VFS_MAXNODES": layers * (nf + 3) + 6, "VFS_CONTENT": 10, "V_PATH_MAX": 48, "VFS_MAXEV": 48, "CALLOC_N": max(nfiles + 2, 6)}
-    name = "d-%s-L%d-%s-%s-suf%s%s" % (ENTRYNAMES[entry], layers, nameset, pat, ("NULL" if suffix is None else "empty" if suffix == "" else suffix.replace(".", "dot")), (("-fail%d%s" % (failfile, "xrpo"[failkind])) if faults else "") + ("-rootprefix" if rootmode else "") + ("-confdirs" if confopt else "") + ("-setconfdirs" if setconf else ""))
+    name = "d-%s-L%d-%s-%s-suf%s%s" % (ENTRYNAMES[entry], layers, nameset, pat, ("NULL" if suffix is None else "empty" if suffix == "" else suffix.replace(".", "dot")), (("-fail%d%s" % (failfile, "xrpo"[failkind])) if faults else "") + ("-rootprefix" if rootmode else "") + ("-confdirs" if confopt else "") + ("-setconfdirs" if setconf else "") + ("-nameless" if nameless else ""))
     uw = lib_unwinds(nfiles * 2 + 2, 3, alloc=nfiles * 2 + 2) + [
         (r"readconfig\.c", r"for \(int i = parse_dirs_count", layers + 1), (r"readconfig\.c", r"i < parse_dirs_count", layers + 1), (r"readconfig\.c", r"i < conf_count", 2),
         (r"readconfig\.c", r"k < \*size-1", nfiles + 1), (r"mergefiles\.c", r"i < num_dirs", nf + 3), (r"mergefiles\.c", r"k < num_dirs", nf + 3),
@@ -466,6 +467,7 @@ def c06(tier):
     full3 = [[1, 1, 1, 0, 1], [1, 1, 1, 1, 0], [0, 1, 0, 1, 1]]
     insts.append(d_inst(5, 3, "A", full3, confopt=True))
     insts.append(d_inst(5, 3, "A", full3, rootmode=True))
+    insts.append(d_inst(5, 3, "A", full3, nameless=True))
     for ff in consulted(3, "A", full3)[1:3]:
         insts.append(d_inst(5, 3, "A", full3, confopt=True, faults=1, failfile=ff, failkind=1))
         insts.append(d_inst(5, 3, "A", full3, rootmode=True, faults=1, failfile=ff, failkind=1))
@@ -513,6 +515,8 @@ def c01(tier):
             insts.append(d_inst(5, 3, "A", pat, rootmode=True))
         insts.append(d_inst(4, 3, "A", [[1, 1, 0, 1, 1], [0, 1, 1, 0, 1], [1, 1, 1, 0, 0]], rootmode=True))
         insts.append(d_inst(5, 3, "A", [[1, 1, 1, 0, 1], [1, 1, 1, 1, 0], [0, 1, 0, 1, 1]], confopt=True))
+        insts.append(d_inst(5, 3, "A", [[0, 1, 1, 0, 1], [0, 1, 1, 1, 0], [0, 1, 0, 1, 1]], nameless=True))
+        insts.append(d_inst(4, 3, "C", [[1, 1, 1, 1, 0], [0, 0, 1, 1, 1], [0, 1, 1, 0, 1]], nameless=True))
         insts.append(d_inst(3, 2, "A", [[1, 1, 1, 1, 1], [0, 1, 1, 1, 0]], suffix=".conf"))
         insts.append(d_inst(3, 2, "B", [[0, 1, 1, 1, 1], [1, 1, 1, 0, 1]], suffix=None))
         insts.append(d_inst(5, 3, "B", [[1, 1, 1, 1, 1], [0, 1, 0, 1, 1], [0, 0, 1, 0, 0]], suffix=""))
@@ -529,6 +533,8 @@ def c01(tier):
                 for pat in d_patterns(3, 3, 24, rng):
                     insts.append(d_inst(entry, 3, "A", pat, rootmode=True, timeout=600))
                     insts.append(d_inst(entry, 3, "C", pat, confopt=True, timeout=600))
+                for pat in d_patterns(3, 3, 12, rng):
+                    insts.append(d_inst(entry, 3, "B", pat, nameless=True, timeout=600))
     insts.append(small("null-names", "n_null.c", {"STRCAP": 24, "VCAP": 6, "VFS_MAXNODES": 4, "CALLOC_N": 6}, E=2, G=2, unwind=25, timeout=300,
                        extra_uw=[(r"readconfig\.c", r"parse_dirs_count", 4), (r"mergefiles\.c", r"config_dirs\[i\]", 3)],
                        functions="all six layered-read entry points with NULL / empty configuration name and NULL project", bounds="entry point, suffix NULL or given, name NULL or empty: symbolic", flags=["--max-field-sensitivity-array-size", "300"]))
